@@ -205,6 +205,8 @@ def classify(e):
 
 
 def run_spec(spec, out):
+    import time
+    t_start = time.time()
     if spec.get("libroot"):
         basic.dirname = os.path.join(spec["libroot"], "logic")
     pre = sorted(m for m in INTEREST if m in sys.modules)
@@ -261,7 +263,7 @@ def run_spec(spec, out):
         "dump": dump_theory(thy),
         "flags": flags,
     }
-    out.write("\n@@C12@@" + json.dumps({"ops": out_ops, "final": final, "pre": pre, "instr": instr}) + "\n")
+    out.write("\n@@C12@@" + json.dumps({"ops": out_ops, "final": final, "pre": pre, "instr": instr, "wall": round(time.time() - t_start, 2)}) + "\n")
     out.flush()
 
 
@@ -270,6 +272,10 @@ if not ZYGOTE:
 else:
     limit = int(spec.get("workers", 8))
     running = set()
+    import gc
+    gc.collect()
+    gc.freeze()          # children do not traverse (and so do not copy) the importer's heap
+
     for line in sys.stdin:
         line = line.strip()
         if not line:
